@@ -1,6 +1,6 @@
 SPECIFICATION Spec
 CONSTANTS
-  Alphabet = {"a", "sp", "sq", "dq", "dl", "bs", "nl", "tab", "bang", "star", "qm", "tilde", "dash", "hash", "lb", "rb", "amp", "eq"}
+  Alphabet = {"a", "sp", "sq", "dq", "dl", "bs", "nl", "tab", "bang", "star", "qm", "tilde", "dash", "hash", "lb", "rb", "amp", "eq", "pipe"}
   MaxLen = 3
   Deviations = {}
 INVARIANT ReadsBack
